@@ -117,10 +117,12 @@ func pollLiveScenario(script string, bufSize int, extra string) *vsched.Scenario
 	var poll netpoll.Poll
 	var epfd, evfd int
 	pollClosed := false
+	wakeupsBefore, wakeupsAfter := 0, 0
 	outWant := 20000
 	sc := &vsched.Scenario{Name: "poll.live", Horizon: 6000}
 	sc.Body = func() {
 		stubs, sentTo, peerClosed, outRecv, pollClosed = nil, nil, nil, nil, false
+		wakeupsBefore, wakeupsAfter = 0, 0
 		netpoll.VerifReset(1)
 		netpoll.Initialize()
 		_, _, polls := netpoll.VerifManagerState()
@@ -184,6 +186,14 @@ func pollLiveScenario(script string, bufSize int, extra string) *vsched.Scenario
 				poll.Trigger()
 				poll.Trigger()
 				vsched.LogEvent("triggered")
+				// once everything has gone idle (the loop is blocked in epoll_wait again), one more
+				// Trigger has to wake it: the loop must serve a wake-up (read its eventfd) after it
+				vsched.Settle("idle-after-triggers")
+				wakeupsBefore = vsyscall.L().EventfdReads
+				poll.Trigger()
+				vsched.Settle("idle-after-late-trigger")
+				wakeupsAfter = vsyscall.L().EventfdReads
+				vsched.LogEvent("late-trigger-done")
 			})
 		case "pollclose":
 			vsched.Go("pollcloser", func() {
@@ -280,6 +290,9 @@ func pollLiveScenario(script string, bufSize int, extra string) *vsched.Scenario
 		}
 		if extra == "trigger" && l.count("triggered") != 1 {
 			add("trigger-blocked", "Trigger did not return")
+		}
+		if extra == "trigger" && l.count("late-trigger-done") == 1 && wakeupsAfter == wakeupsBefore {
+			add("trigger-no-wakeup", fmt.Sprintf("a Trigger issued while the loop was blocked in epoll_wait did not wake it (wake-ups served before %d, after %d)", wakeupsBefore, wakeupsAfter))
 		}
 		return vs
 	}
